@@ -76,12 +76,15 @@ def gen_system(rng, cfg, sid, big=False):
     nl = np.exp(nprng.uniform(-3, 1.5, size=(nspin, nnl, n))) * rho[:, None, :] ** 0.0
     wt = np.abs(nprng.normal(size=n)) * 0.05 + 1e-3
     val = -0.74 * (rho.mean(0)) ** (4.0 / 3) * (1 + 0.2 * nprng.normal(size=n))
+    nsd = cfg.get("n_sdmx", 0)
+    sd = np.exp(np.random.default_rng(int(nprng.integers(0, 2**31)) if nsd else 0).uniform(-3, 1.0, size=(nspin, nsd, n))) if nsd else np.zeros((nspin, 0, n))
     d = {
         "nspin": nspin,
         "wt": wt,
         "val": val,
         "desc_sl": desc,
         "desc_nl": nl,
+        "desc_sd": sd,
         "e_tot_orig": float(nprng.normal() - 5.0),
         "exc_orig": float(nprng.normal() * 0.3 - 1.0),
     }
@@ -136,6 +139,8 @@ def write_system(ddir, sid, d, cfg):
         if cfg["deriv"]:
             nl["ddesc"] = {o: {k: v["nl"] for k, v in dd.items()} for o, dd in d["ddesc"].items()}
         chkfile.dump(os.path.join(ddir["NLDF"], sid + ".hdf5"), "train_data", nl)
+    if cfg.get("n_sdmx"):
+        chkfile.dump(os.path.join(ddir["SDMX"], sid + ".hdf5"), "train_data", {"desc": d["desc_sd"]})
 
 
 # ---------------------------------------------------------------------------------
@@ -149,7 +154,8 @@ def make_settings(cfg):
     if cfg["n_nldf"]:
         specs = ["se", "se_ar2", "se_a2r4"][: cfg["n_nldf"]]
         nldf = S.NLDFSettingsVJ("MGGA", [1.0, 0.03125, 0.03125], "one", specs, [[1.0, 0.03125, 0.03125], [2.0, 0.0625, 0.03125], [0.5, 0.0, 0.0625]][: cfg["n_nldf"]])
-    st = S.FeatureSettings(sl_settings=sl, nldf_settings=nldf)
+    sdmx = S.SDMXSettings([0, 1, 2][: cfg["n_sdmx"]]) if cfg.get("n_sdmx") else None
+    st = S.FeatureSettings(sl_settings=sl, nldf_settings=nldf, sdmx_settings=sdmx)
     if cfg["normalize"]:
         st.assign_reasonable_normalizer()
         kinds = cfg.get("norm_kinds")
@@ -189,6 +195,8 @@ def make_kernels(cfg, settings):
             maps = [td.SLXMap(0, 1, 0.5), td.SLTMap(0, 2)]
         for j in range(cfg["n_nldf"]):
             maps.append(td.UMap(3 + j, kc["gammas"][j]))
+        for j in range(cfg.get("n_sdmx", 0)):
+            maps.append(td.UMap(3 + cfg["n_nldf"] + j, kc["gammas"][(j + 1) % 3]))
         fl = td.FeatureList(maps)
         kern = DiffConstantKernel(kc["scale"], constant_value_bounds="fixed") * DiffRBF(length_scale=np.asarray(kc["ls"][: fl.nfeat]), length_scale_bounds="fixed")
         if kc.get("form") == "rbf+white":
@@ -218,6 +226,7 @@ def gen_cfg(rng):
         slmode = rng.choice(["npa", "nst"])
     nsys = rng.randint(3, 7)
     n_nldf = rng.choice([0, 1, 2])
+    n_sdmx_draw = rng.choice([0, 0, 1, 2])
     nk = rng.weighted([(1, 3), (2, 3), (3, 2)])
     kernels = []
     # any number of exchange and non-exchange components, incl. none of either kind
@@ -268,6 +277,9 @@ def gen_cfg(rng):
         "slmode": slmode,
         "nsys": nsys,
         "n_nldf": n_nldf,
+        # a third feature family (its own data directory): not together with orbital-derivative
+        # entries, which the synthetic data provide for the first two families only
+        "n_sdmx": 0 if deriv else n_sdmx_draw,
         "normalize": rng.chance(0.7),
         "kernels": kernels,
         "deriv": bool(deriv),
@@ -299,10 +311,10 @@ def gen_reaction(rng, cfg, ids):
             rxn["unit"] = rng.choice([1.0, 0.0367493, 0.00159360109742136])
     c = rng.below(5)
     if c == 0:
-        rxn["noise"] = rng.choice([0.01, 0.05, 0.2])
+        rxn["noise"] = rng.choice([0.01, 0.05, 0.2, 0.0])  # 0.0: an exact constraint
     elif c == 1:
-        rxn["noise_factor"] = rng.choice([0.5, 2.0, 4.0])
-    if rng.chance(0.25):
+        rxn["noise_factor"] = rng.choice([0.5, 2.0, 4.0, 0])
+    if rng.chance(0.25) or (rxn.get("noise") == 0.0 and rng.chance(0.6)) or (rxn.get("noise_factor") == 0 and rng.chance(0.6)):
         rxn["noise_rel_factor"] = rng.choice([0.01, 0.1])
     if rng.chance(0.25):
         rxn["weight"] = rng.choice([0.25, 2.0, 4.0])
@@ -357,6 +369,10 @@ def gen_history(seed):
             ops.append({"op": "store", "ids": [rng.choice(ids)]})
             if rng.chance(0.2):
                 ops[-1]["fault"] = draw_fault(rng, 1500)  # interrupted store, then stored again
+    if rng.chance(0.25):
+        # somewhere after the first stores, another model is trained in the same process
+        first_free = 1 + sum(1 for o in ops if o["op"] in ("ctrl", "store") and ops.index(o) < 4)
+        ops.insert(rng.randint(min(first_free, len(ops)), len(ops)), {"op": "other"})
     if nrx == 0:
         ops.append({"op": "add", "rxns": [gen_reaction(rng, cfg, ids) for _ in range(3)]})
     ops.append({"op": "fit", "x": None, "sigma_min": 0.25})
@@ -432,9 +448,12 @@ class Ref:
         self.sys = {}
 
     def full_desc(self, d):
+        parts = [d["desc_sl"]]
         if self.cfg["n_nldf"]:
-            return np.concatenate([d["desc_sl"], d["desc_nl"]], axis=1)
-        return d["desc_sl"]
+            parts.append(d["desc_nl"])
+        if self.cfg.get("n_sdmx"):
+            parts.append(d["desc_sd"])
+        return np.concatenate(parts, axis=1) if len(parts) > 1 else parts[0]
 
     def cov_base(self, kernel, desc, d):
         """(cov vector, baseline) for raw descriptors `desc` of system data d"""
@@ -545,7 +564,7 @@ def exec_history(hist, workdir, collect=None, light=False):
     def V(key, detail):
         viol.append({"key": key, "detail": detail, "replay": rp})
 
-    ddir = {"REF": os.path.join(workdir, "REF"), "SL": os.path.join(workdir, "SL"), "NLDF": os.path.join(workdir, "NLDF") if cfg["n_nldf"] else None, "NLOF": None, "SDMX": None, "HYB": None}
+    ddir = {"REF": os.path.join(workdir, "REF"), "SL": os.path.join(workdir, "SL"), "NLDF": os.path.join(workdir, "NLDF") if cfg["n_nldf"] else None, "NLOF": None, "SDMX": os.path.join(workdir, "SDMX") if cfg.get("n_sdmx") else None, "HYB": None}
     for k, v in ddir.items():
         if v:
             os.makedirs(v, exist_ok=True)
@@ -692,6 +711,29 @@ def exec_history(hist, workdir, collect=None, light=False):
           c = op["op"]
           stats["op_" + c] += 1
           dg.add(c)
+          if c == "other":
+              # a second model is trained in the same process on OTHER data that use the same
+              # system ids (another basis set / another functional's reference values)
+              ddir2 = {k: (os.path.join(workdir, "other", k) if v else None) for k, v in ddir.items()}
+              for v in ddir2.values():
+                  if v:
+                      os.makedirs(v, exist_ok=True)
+              drng2 = Rng(cfg["dseed"] + 17)
+              data2 = {}
+              for i2, sid in enumerate(ids):
+                  data2[sid] = gen_system(drng2.fork(sid), cfg, i2)
+                  write_system(ddir2, sid, data2[sid], cfg)
+              gp2, st2 = make_gp(cfg)
+              ref2 = Ref(cfg, data2, gp2, st2)
+              big = [sid for sid, n_ in zip(ids, cfg["nsamps"]) if n_ >= 40] or ids
+              X2 = st2.normalizers.get_normalized_feature_vector(ref2.full_desc(data2[big[0]]))
+              X2 = np.ascontiguousarray(X2[..., 8 : 8 + 24])[:1]
+              _quiet(gp2.set_control_points, [X2], reduce=True)
+              _quiet(gp2.store_mol_covs, ddir2, list(ids))
+              _quiet(gp2.add_reactions, [(0, {"structs": [ids[0]], "counts": [1.0]}), (0, {"structs": [ids[-1]], "counts": [2.0]})])
+              _quiet(gp2.fit)
+              stats["sessions_of_a_second_model_in_between"] += 1
+              continue
           if c == "ctrl":
               X0T_list = []
               for sid in op["ids"]:
@@ -1107,6 +1149,7 @@ def coverage(done, tier):
             "histories_with_orbital_derivative_entries": tot["cfg_deriv"],
             "histories_with_several_kernels": tot["cfg_multi_kernel"],
             "exchange_only_store_calls": tot["stores_exchange_only"],
+            "sessions_of_a_second_model_in_between": tot["sessions_of_a_second_model_in_between"],
         },
         "spin_modes": {k[5:]: v for k, v in tot.items() if k.startswith("mode_")},
         "versions": {"MOLGP": tot["cfg_v1"], "MOLGP2": tot["cfg_v2"]},
